@@ -54,7 +54,7 @@ Section MoveLazy.
   Proof.
     intros HSC HSN HR HNE H. pose proof HSC as (Hinv & Hna & Hsi & Hal). pose proof HSN as (s & (R1 & R2) & HS).
     pose proof (movector_pinv fn rtl fuel w src dst w' None Hinv HNE H I) as Hinv'.
-    destruct (movector_shape fn rtl fuel w src dst w' Hinv Hna HNE H) as (s0 & dn & sn & Hs & Hd & Hne & Vd & Ud & Vs & Us & PW & Sw & HB & _ & HT & EV & LEN).
+    destruct (movector_shape fn rtl fuel w src dst w' Hinv HNE H) as (s0 & dn & sn & Hs & Hd & Hne & Vd & Ud & Vs & Us & PW & Sw & HB & _ & HT & EV & LEN).
     set (rho := rn src dst).
     assert (Pd : pview w dst = None) by (unfold pview; rewrite Hd; reflexivity).
     (* nothing that exists is called dst *)
@@ -223,7 +223,7 @@ Section MoveLazy.
   Proof.
     intros HSC HSN HR HNE Hnr H. pose proof HSC as (Hinv & Hna & Hsi & Hal). pose proof HSN as (s & (R1 & R2) & HS).
     pose proof (moveassign_pinv fn rtl fuel w dst src w' None Hinv HNE H I) as Hinv'.
-    destruct (moveassign_shape fn rtl fuel w dst src w' Hinv Hna HNE Hnr H) as (s0 & d0 & dn & sn & Hs & Hd & Hne & Vd & Ud & Vs & Us & PW & Sw & HB & HT & HEV & LEN).
+    destruct (moveassign_shape fn rtl fuel w dst src w' Hinv HNE Hnr H) as (s0 & d0 & dn & sn & Hs & Hd & Hne & Vd & Ud & Vs & Us & PW & Sw & HB & HT & HEV & LEN).
     set (rho := rn src dst).
     assert (Pdd : pview w dst = Some (psigs_of d0)) by (unfold pview; rewrite Hd; reflexivity).
     assert (Ltg : forall b lf q, has_leaf w b lf -> lf_tg lf = Some q -> q <> dst) by (intros b lf q Hl Ht ->; exact (Hnr b lf Hl Ht)).
